@@ -420,6 +420,70 @@ Eval vm_compute in (mismatches model agree cases).
     return fails
 
 
+def layouts(ctx):
+    """oracle: non-contiguous first operands (library-made transposed / moved / unbound / sliced views, Fortran order, strided
+    slices, 0-stride broadcasts) give the result of the contiguous copy: dtype, values (within 1000 eps), 0-d sum, gradients"""
+    from lib import c10_layers as L
+    impl = _impl()
+    n, skipped, fails = 0, 0, []
+    for op in L.layout_ops(impl):
+        for lay in L.LAYOUTS:
+            for dt in FLOATS:
+                try:
+                    r = L.layout_check(impl, op[0], lay, dt)
+                except Exception as ex:
+                    r = ('raises', 'the op accepts the layout like the contiguous copy', repr(ex)[:200])
+                if r is None:
+                    n += 1
+                elif r[0] == 'skip':
+                    skipped += 1
+                else:
+                    n += 1
+                    fails.append((op[0], lay, dt, r))
+    ctx.extra['noncontiguous_operand_checks'] = {'evaluations': n, 'skipped': skipped, 'failing': len(fails), 'layouts': list(L.LAYOUTS), 'ops': len(L.layout_ops(impl)),
+                                                 'tolerance': 'values within 1000 * eps(dtype) * max(1, max|result|) of the result on the contiguous copy'}
+    seen = set()
+    for opn, lay, dt, r in sorted(fails, key=lambda f: (f[2] != 'float64', L.LAYOUTS.index(f[1]))):
+        if opn in seen or len(seen) >= 2:
+            continue
+        seen.add(opn)
+        ctx.witness("op " + opn, r[0] if r[0].startswith('noncontiguous') else 'noncontiguous-operand-' + r[0], {'layout_op': opn, 'layout': lay, 'dtype': dt},
+                    r[1], r[2], note="first operand in a non-contiguous layout vs its contiguous copy, same dtype")
+    return fails
+
+
+def conditioned_agreement(ctx):
+    """NUMERICAL oracle (stated tolerances, not a proof): float32 results agree with the float64 results of the same
+    float32-representable, ill-conditioned inputs within C * eps32 * amp * scale (lib/c10_layers.py)"""
+    from lib import c10_layers as L
+    impl = _impl()
+    n, fails, worst = 0, [], 0.0
+    for rc in L.agreement_recipes():
+        try:
+            rows = L.run_agreement(impl, rc)
+        except Exception as ex:
+            fails.append((rc, 'raises', float('inf'), 0.0, repr(ex)[:200]))
+            continue
+        for nm, err, bound, kind in rows:
+            n += 1
+            ratio = err / bound if bound > 0 else float('inf')
+            if ratio > 1:
+                fails.append((rc, nm, err, bound, kind))
+            else:
+                worst = max(worst, ratio)
+    ctx.extra['f32_f64_conditioned_agreement'] = {'quantities': n, 'failing': len(fails), 'worst_error_over_bound_among_passing': round(worst, 4),
+                                                  'bound': 'max|q32-q64| <= %g * eps32 * amp * scale; amp = |mean|/std + 1 for quantities computed from centred data, else 1' % L.AGREE_C}
+    seen = set()
+    for rc, nm, err, bound, kind in sorted(fails, key=lambda f: -(f[2] / f[3] if f[3] else 1e99)):
+        if rc['op'] in seen or len(seen) >= 2:
+            continue
+        seen.add(rc['op'])
+        ctx.witness("op " + rc['op'], "f32-f64-disagreement", {'agreement': rc, 'quantity': nm},
+                    {'bound': bound, 'rule': '%g * eps32 * amp * scale (%s)' % (L.AGREE_C, kind)}, {'max_error': err, 'error_over_bound': (err / bound if bound else None)},
+                    note="x = mean + std * N(0,1) drawn with the seed, cast to float32, used in both dtypes")
+    return fails
+
+
 def scalar_values(ctx):
     """oracle, value level: float64 (float32) tensors combined with non-dyadic Python scalars give bit-exactly the NumPy
     float64 (float32) result - the scalar is not rounded through float32 - and so do the gradients"""
@@ -489,6 +553,8 @@ def run(ctx):
     obs_list, recdata = run_all(ctx, info)
     ctx.log("ran %d public calls" % len(obs_list))
     sfails = scalar_values(ctx)
+    lfails = layouts(ctx)
+    afails = conditioned_agreement(ctx)
     gen_ok = info is not None and ok_build
     if info is not None and not ok_build:
         # the generated file may still compile although a theorem fails: try the correspondences anyway
@@ -521,6 +587,17 @@ def replay(ctx, data):
     impl = _impl()
     np, sg = impl.np, impl.synapgrad
     inp = data["input"]
+    if 'layout_op' in inp:
+        r = L.layout_check(impl, inp['layout_op'], inp['layout'], inp['dtype'])
+        print("%s, first operand in layout %s, %s ->" % (inp['layout_op'], inp['layout'], inp['dtype']), "same as on the contiguous copy: property holds on this input" if r is None else r)
+        return 0 if r is None else 1
+    if 'agreement' in inp:
+        rows = L.run_agreement(impl, inp['agreement'])
+        bad = [(nm, err, bound) for nm, err, bound, kind in rows if not err <= bound]
+        print("recipe %s ->" % json.dumps(inp['agreement']))
+        for nm, err, bound, kind in rows:
+            print("   %-14s max|q32-q64| = %.3e   bound %.3e   %s" % (nm, err, bound, "VIOLATED" if not err <= bound else "ok"))
+        return 1 if bad else 0
     if 'history' in inp:
         rec = L.run_history(impl, None, inp['history'], ctx.seed)
         print("history %s ->" % json.dumps(inp['history']))
